@@ -230,4 +230,207 @@ theorem sound_seq {t : Target} (hS : Sound t) : Sound (.seq t) := by
       simp only [readAs, binaryElems, hg, getRequired, bind, Except.bind, pure, Except.pure, hm]
   | _ => cases lv <;> simp [cast, isBinaryLike, mustFail, must, na, fail] at hc
 
+/-! ### tuples over struct columns -/
+
+def Targets.toList : Targets → List Target
+  | .nil => []
+  | .cons t r => t :: Targets.toList r
+
+def TFields.toList : TFields → List (String × Target)
+  | .nil => []
+  | .cons n t r => (n, t) :: TFields.toList r
+
+def TVariants.toList : TVariants → List (String × VKind)
+  | .nil => []
+  | .cons n k r => (n, k) :: TVariants.toList r
+
+theorem decodeFieldsAt_cons_inv {fm : FieldMeta} {a : Arr} {rest : ArrFields} {i : Nat} {vals : List (String × LVal)}
+    (h : decodeFieldsAt (.cons fm a rest) i = .ok vals) :
+    ∃ v r, decodeAt a i = .ok v ∧ decodeFieldsAt rest i = .ok r ∧ vals = (fm.name, v) :: r := by
+  unfold decodeFieldsAt at h
+  obtain ⟨v, hv, h⟩ := bind_ok_inv h
+  obtain ⟨r, hr, h⟩ := bind_ok_inv h
+  cases h
+  exact ⟨v, r, hv, hr, rfl⟩
+
+theorem readTupleFields_sound : ∀ (ts : Targets), (∀ t ∈ Targets.toList ts, Sound t) →
+    ∀ (fs : ArrFields) (i : Nat) (vals : List (String × LVal)) (ds : List DVal),
+    decodeFieldsAt fs i = .ok vals → newFields Fixes.all fs = .ok () → physicalFields fs = true →
+    utf8OkFields (LFields.ofList vals) = true → castTuple ts fs (LFields.ofList vals) = .ok (some ds) →
+    readTupleFields Fixes.all ts fs i = .ok ds
+  | .nil, _, fs, i, vals, ds, _, _, _, _, hc => by
+    simp only [castTuple] at hc
+    cases hc
+    simp [readTupleFields]
+  | .cons t rest, hS, .nil, i, vals, ds, h, _, _, _, hc => by
+    unfold decodeFieldsAt at h; cases h
+    simp [castTuple, LFields.ofList, fail] at hc
+  | .cons t rest, hS, .cons fm a frest, i, vals, ds, h, hn, hp, hu, hc => by
+    obtain ⟨v, r, hv, hr, rfl⟩ := decodeFieldsAt_cons_inv h
+    obtain ⟨hna, hnr⟩ := newFields_cons_inv hn
+    unfold physicalFields at hp
+    simp only [Bool.and_eq_true] at hp
+    simp only [LFields.ofList, utf8OkFields, Bool.and_eq_true] at hu
+    simp only [LFields.ofList, castTuple] at hc
+    obtain ⟨d, ds', h1, h2, rfl⟩ := consClaim_some hc
+    have e1 := hS t (by simp [Targets.toList]) a i v d hv hna hp.1 hu.1 h1
+    have e2 := readTupleFields_sound rest (fun t' ht' => hS t' (by simp [Targets.toList, ht'])) frest i r ds' hr hnr hp.2 hu.2 h2
+    simp only [readTupleFields, e1, e2, bind, Except.bind, pure, Except.pure]
+
+theorem structItem_ok {len i : Nat} (hi : i < len) : structItem Fixes.all len i = .ok () := by
+  have : ¬ i ≥ len := by omega
+  simp [structItem, this]
+
+/-- `tupleClaim` + `tupleVisit` (tuple, tuple struct, tuple variant) -/
+theorem tupleVisit_sound {ts : Targets} (hS : ∀ t ∈ Targets.toList ts, Sound t) (a : Arr) (i : Nat) (lv : LVal) (d : DVal)
+    (h : decodeAt a i = .ok lv) (hn : new Fixes.all a = .ok ()) (hp : physical a = true) (hu : utf8Ok lv = true)
+    (hc : tupleClaim (fun fs lfs => castTuple ts fs lfs) a lv = must d) :
+    tupleVisit Fixes.all (fun fs => readTupleFields Fixes.all ts fs i) a i = .ok d := by
+  cases a with
+  | struct len v fs =>
+    obtain ⟨hi, hlv⟩ := struct_inv h
+    rcases hlv with rfl | ⟨vals, hvals, rfl⟩
+    · simp [tupleClaim, mustFail, must, fail] at hc
+    · simp only [tupleClaim] at hc
+      obtain ⟨ds, hcl, hd⟩ := andThenL_must hc
+      cases must_inj hd
+      unfold physical at hp
+      simp only [utf8Ok] at hu
+      have := readTupleFields_sound ts hS fs i vals ds hvals (new_struct_inv hn) hp hu hcl
+      simp only [tupleVisit, structItem_ok hi, this, bind, Except.bind, pure, Except.pure]
+  | _ => cases lv <;> simp [tupleClaim, mustFail, must, na, fail] at hc
+
+theorem sound_tuple {ts : Targets} (hS : ∀ t ∈ Targets.toList ts, Sound t) : Sound (.tuple ts) := by
+  intro a i lv d h hn hp hu hc
+  simp only [cast] at hc
+  simp only [readAs]
+  exact tupleVisit_sound hS a i lv d h hn hp hu hc
+
+theorem sound_tupleStruct {ts : Targets} (hS : ∀ t ∈ Targets.toList ts, Sound t) : Sound (.tupleStruct ts) := by
+  intro a i lv d h hn hp hu hc
+  simp only [cast] at hc
+  simp only [readAs]
+  exact tupleVisit_sound hS a i lv d h hn hp hu hc
+
+/-! ### maps: from a struct column (field names as keys) and from a map column -/
+
+theorem structAsMap_sound {k v : Target} (hk : k = .string ∨ k = .any) (hS : Sound v) :
+    ∀ (fs : ArrFields) (i : Nat) (vals : List (String × LVal)) (es : List (DVal × DVal)),
+    decodeFieldsAt fs i = .ok vals → newFields Fixes.all fs = .ok () → physicalFields fs = true →
+    utf8OkFields (LFields.ofList vals) = true →
+    claimStructAsMap (mapKeyOf k) (fun c w => cast v c w) fs (LFields.ofList vals) = .ok (some es) →
+    (fs.toList.mapM fun (p : FieldMeta × Arr) => do
+        let kk ← strDeAs k p.1.name
+        let vv ← readAs Fixes.all v p.2 i
+        pure (kk, vv)) = .ok es
+  | .nil, i, vals, es, h, _, _, _, hc => by
+    unfold decodeFieldsAt at h; cases h
+    simp only [LFields.ofList, claimStructAsMap] at hc
+    cases hc
+    simp [ArrFields.toList, pure, Except.pure]
+  | .cons fm a rest, i, vals, es, h, hn, hp, hu, hc => by
+    obtain ⟨w, r, hw, hr, rfl⟩ := decodeFieldsAt_cons_inv h
+    obtain ⟨hna, hnr⟩ := newFields_cons_inv hn
+    unfold physicalFields at hp
+    simp only [Bool.and_eq_true] at hp
+    simp only [LFields.ofList, utf8OkFields, Bool.and_eq_true] at hu
+    simp only [LFields.ofList, claimStructAsMap] at hc
+    obtain ⟨e, es', h1, h2, rfl⟩ := consClaim_some hc
+    have ih := structAsMap_sound hk hS rest i r es' hr hnr hp.2 hu.2 h2
+    cases hcv : cast v a w with
+    | error err => rw [hcv] at h1; simp at h1
+    | ok o =>
+      cases o with
+      | none => rw [hcv] at h1; simp at h1
+      | some d =>
+        rw [hcv] at h1
+        simp only [Except.ok.injEq, Option.some.injEq] at h1
+        subst h1
+        have e1 := hS a i w d hw hna hp.1 hu.1 hcv
+        have ek : strDeAs k fm.name = .ok (mapKeyOf k fm.name) := by
+          rcases hk with rfl | rfl <;> rfl
+        rw [ArrFields.toList, List.mapM_cons, ih]
+        simp only [ek, e1, bind, Except.bind, pure, Except.pure]
+
+theorem pairClaim_some {k v : Claim} {p : DVal × DVal} (h : pairClaim k v = .ok (some p)) :
+    k = must p.1 ∧ v = must p.2 := by
+  unfold pairClaim at h
+  split at h
+  · cases h
+  · cases h
+  · cases h; exact ⟨rfl, rfl⟩
+  · cases h
+
+theorem readRange_pairs_of_claims {f1 f2 : Nat → R LVal} {g1 g2 : Nat → R DVal} {c1 c2 : LVal → Claim} {P : LVal → Prop}
+    (hfg1 : ∀ j v d, f1 j = .ok v → P v → c1 v = must d → g1 j = .ok d)
+    (hfg2 : ∀ j v d, f2 j = .ok v → P v → c2 v = must d → g2 j = .ok d) :
+    ∀ (n s : Nat) (ks ws : List LVal) (es : List (DVal × DVal)), seqAt f1 s n = .ok ks → seqAt f2 s n = .ok ws →
+      (∀ v ∈ ks, P v) → (∀ v ∈ ws, P v) → claimEntries c1 c2 (LEntries.ofList (ks.zip ws)) = .ok (some es) →
+      readRange (fun j => do let k ← g1 j; let v ← g2 j; pure (k, v)) s n = .ok es
+  | 0, s, ks, ws, es, hk, hw, _, _, hc => by
+    unfold seqAt at hk hw; cases hk; cases hw
+    simp only [List.zip_nil_left, LEntries.ofList, claimEntries] at hc
+    cases hc; rfl
+  | n + 1, s, ks, ws, es, hk, hw, pk, pw, hc => by
+    unfold seqAt at hk hw
+    obtain ⟨k, hk1, hk⟩ := bind_ok_inv hk
+    obtain ⟨ks', hks, hk⟩ := bind_ok_inv hk
+    cases hk
+    obtain ⟨w, hw1, hw⟩ := bind_ok_inv hw
+    obtain ⟨ws', hws, hw⟩ := bind_ok_inv hw
+    cases hw
+    simp only [List.zip_cons_cons, LEntries.ofList, claimEntries] at hc
+    obtain ⟨e, es', h1, h2, rfl⟩ := consClaim_some hc
+    obtain ⟨c1k, c2w⟩ := pairClaim_some h1
+    unfold readRange
+    have ih := readRange_pairs_of_claims hfg1 hfg2 n (s + 1) ks' ws' es' hks hws (fun v hv => pk v (by simp [hv]))
+      (fun v hv => pw v (by simp [hv])) h2
+    simp only [hfg1 s k e.1 hk1 (pk k (by simp)) c1k, hfg2 s w e.2 hw1 (pw w (by simp)) c2w, bind, Except.bind, pure,
+      Except.pure] at ih ⊢
+    rw [ih]
+
+theorem sound_map {k v : Target} (hK : Sound k) (hV : Sound v) : Sound (.map k v) := by
+  intro a i lv d h hn hp hu hc
+  cases a with
+  | struct len vb fs =>
+    obtain ⟨hi, hlv⟩ := struct_inv h
+    rcases hlv with rfl | ⟨vals, hvals, rfl⟩
+    · simp [cast, mustFail, must, fail] at hc
+    · simp only [cast] at hc
+      have hk : k = .string ∨ k = .any := by
+        cases k <;> simp [na, must] at hc ⊢
+      have hc' : andThenE (claimStructAsMap (mapKeyOf k) (fun c w => cast v c w) fs (LFields.ofList vals))
+          (fun es => must (.map (DEntries.ofList es))) = must d := by
+        rcases hk with rfl | rfl <;> exact hc
+      obtain ⟨es, hcl, hd⟩ := andThenE_must hc'
+      cases must_inj hd
+      unfold physical at hp
+      simp only [utf8Ok] at hu
+      have := structAsMap_sound hk hV fs i vals es hvals (new_struct_inv hn) hp hu hcl
+      simp only [readAs, structItem_ok hi, bind, Except.bind, pure, Except.pure] at this ⊢
+      rw [this]
+  | map vb offs mm ks vs =>
+    obtain ⟨hi, hlv⟩ := map_inv h
+    rcases hlv with rfl | ⟨kxs, wxs, hkx, hwx, rfl⟩
+    · simp [cast, mustFail, must, fail] at hc
+    · simp only [cast] at hc
+      obtain ⟨es, hcl, hd⟩ := andThenE_must hc
+      cases must_inj hd
+      obtain ⟨h0, h1, _, hkseq⟩ := rangeAt_ok hkx
+      obtain ⟨_, _, _, hwseq⟩ := rangeAt_ok hwx
+      obtain ⟨hnk, hnv⟩ := new_map_inv hn
+      unfold physical at hp
+      simp only [Bool.and_eq_true] at hp
+      simp only [utf8Ok] at hu
+      have hlen : kxs.length = wxs.length := by
+        rw [seqAt_length _ _ _ hkseq, seqAt_length _ _ _ hwseq]
+      obtain ⟨pk, pw⟩ := utf8OkEntries_zip kxs wxs hlen hu
+      have hr := readRange_pairs_of_claims (g1 := fun j => readAs Fixes.all k ks j) (g2 := fun j => readAs Fixes.all v vs j)
+        (c1 := fun w => cast k ks w) (c2 := fun w => cast v vs w) (P := fun v => utf8Ok v = true)
+        (fun j x d hj hx hcx => hK ks j x d hj hnk hp.1 hx hcx)
+        (fun j x d hj hx hcx => hV vs j x d hj hnv hp.2 hx hcx) _ _ kxs wxs es hkseq hwseq pk pw hcl
+      simp only [readAs, listRange_eval hi h0 h1, bind, Except.bind, pure, Except.pure] at hr ⊢
+      rw [hr]
+  | _ => cases lv <;> simp [cast, mustFail, must, na, fail] at hc
+
 end SaModel.Read
